@@ -1023,3 +1023,8 @@ PRESERVING += [
     ('p6-generator-positions', None, [(A, _RL_OLD, _RL_GEN.format(adv='item.size()'))]),
     ('p6-while-unrelated', ['C03', 'C09', 'C16', 'C17'], [(A, _FILTER_NONE, _FILTER_NONE + "    budget = len(items)\n    while budget > 1000000:\n        log.debug('large program')\n        budget -= 1000000\n")]),
 ]
+
+from .variants_wiring import BREAKING as _W_BREAKING, PRESERVING as _W_PRESERVING, UNDECIDED as _W_UNDECIDED  # noqa: E402
+BREAKING += _W_BREAKING
+PRESERVING += _W_PRESERVING
+UNDECIDED += _W_UNDECIDED
